@@ -19,7 +19,7 @@ import (
 // The operation is part of the schedule (closed loop), so a non-converging run replays.
 
 const (
-	healTimeouts    = 40 // election timeouts allowed for reaching one leader and equal logs
+	healTimeouts    = 25 // election timeouts allowed for reaching one leader and equal logs
 	healProposals   = 3
 	healAfterwards  = 12 // election timeouts allowed for the proposals made afterwards
 	healFlushRounds = 12
@@ -243,6 +243,9 @@ func (c *Cluster) debugState(tag string) {
 }
 
 func (c *Cluster) healRound() {
+	if c.over() {
+		return
+	}
 	// a cooperative application: a leader that may have to send a snapshot gets one that
 	// covers what it has applied (in particular the current membership)
 	for _, n := range c.alive() {
@@ -258,6 +261,11 @@ func (c *Cluster) heal() {
 	if c.stopped || len(c.tainted) > 0 {
 		return
 	}
+	defer func() {
+		if c.overrun != "" && len(c.tainted) == 0 {
+			c.mon.report("C15", "", "the fault-free suffix does not quiesce: %s", c.overrun)
+		}
+	}()
 	c.mon.healRuns++
 	c.blocked = map[[2]uint64]bool{}
 	retired := map[uint64]bool{}
